@@ -336,6 +336,13 @@ def run(ck: Check):
         if b[0] == 24 or b[0] > 24 or min(b[:4]) < 0:
             b = g_value_time(r)
         add({"op": "time_cmp", "a": a, "b": b}, kind="time_cmp")
+        # one instant written with two offsets
+        h, mi, se = r.randint(1, 22), r.randint(0, 59), r.randint(0, 59)
+        off = r.choice([60, -60, 30, 45, 120, -330])
+        tot = h * 3600 + mi * 60 + se - off * 60
+        if 0 <= tot < 86400:
+            f = r.choice([0, 1, 500000000, r.randint(1, 999999999)])
+            add({"op": "time_cmp", "a": [h, mi, se, f, off], "b": [tot // 3600, tot % 3600 // 60, tot % 60, f, r.choice([0, None])]}, kind="time_cmp")
         a = g_value_datetime(r, small=True)
         b = near_pairs(r, a) if r.random() < 0.6 else g_value_datetime(r, small=True)
         add({"op": "datetime_cmp", "a": a, "b": b}, kind="datetime_cmp")
@@ -343,6 +350,7 @@ def run(ck: Check):
     add({"op": "datetime_cmp", "a": [2001, 2, 28, 23, 0, 0, 0, 0], "b": [2001, 3, 1, 0, 30, 0, 0, 120]}, kind="datetime_cmp")
     add({"op": "datetime_cmp", "a": [2001, 1, 1, 0, 0, 0, 1, None], "b": [2001, 1, 1, 0, 0, 0, 2, None]}, kind="datetime_cmp")
     add({"op": "datetime_cmp", "a": [2001, 1, 1, 24, 0, 0, 0, None], "b": [2001, 1, 2, 0, 0, 0, 0, None]}, kind="datetime_cmp")
+    add({"op": "time_cmp", "a": [9, 7, 31, 817077202, 45], "b": [8, 22, 31, 817077202, 0]}, kind="time_cmp")
     for _ in range(150 * N):
         v = g_value_datetime(r, small=True)
         v[0] = r.choice([1, 9999, r.randint(1, 9999)])
